@@ -97,6 +97,9 @@ type escaper struct {
 	actionNodeEdits   map[*parse.ActionNode][]string
 	templateNodeEdits map[*parse.TemplateNode]string
 	textNodeEdits     map[*parse.TextNode][]byte
+	// start[templateName] is the context in which the analysis recorded in
+	// output[templateName] started: the context of the first call site.
+	start map[string]context
 }
 
 // makeEscaper creates a blank escaper for the given set.
@@ -109,6 +112,7 @@ func makeEscaper(n *nameSpace) escaper {
 		map[*parse.ActionNode][]string{},
 		map[*parse.TemplateNode]string{},
 		map[*parse.TextNode][]byte{},
+		map[string]context{},
 	}
 }
 
@@ -469,6 +473,7 @@ func (e *escaper) escapeListConditionally(c context, n *parse.ListNode, filter f
 	for k, v := range e.output {
 		e1.output[k] = v
 	}
+	e1.start = e.start
 	c = e1.escapeList(c, n)
 	ok := filter != nil && filter(&e1, c)
 	if ok {
@@ -553,7 +558,7 @@ func (e *escaper) escapeTree(c context, node parse.Node, name string, line int) 
 	e.called[dname] = true
 	if out, ok := e.output[dname]; ok {
 		// Already escaped.
-		return out, dname
+		return rebase(out, e.start[dname], c), dname
 	}
 	t := e.template(name)
 	if t == nil || t.Tree == nil {
@@ -583,7 +588,34 @@ func (e *escaper) escapeTree(c context, node parse.Node, name string, line int) 
 		}
 		t = dt
 	}
+	e.start[dname] = c
 	return e.computeOutCtx(c, t), dname
+}
+
+// rebase adapts the output context out, computed for a template called in context c0,
+// to a call of the same template in context c, which has the same mangled name as c0.
+// The parts of out that the template took over from its first caller are replaced by
+// those of the present caller: the static text of the attribute value seen before the
+// call, the link rel value, the script type and the element.
+func rebase(out, c0, c context) context {
+	if out.state == stateError {
+		return out
+	}
+	if out.state == stateAttr && c0.state == stateAttr && out.attr.name == c0.attr.name && strings.HasPrefix(out.attr.value, c0.attr.value) {
+		out.attr.value = c.attr.value + out.attr.value[len(c0.attr.value):]
+		out.attr.ambiguousValue = out.attr.ambiguousValue || c.attr.ambiguousValue
+		out.attr.afterAction = out.attr.afterAction || c.attr.afterAction
+	}
+	if out.linkRel == c0.linkRel {
+		out.linkRel = c.linkRel
+	}
+	if out.scriptType == c0.scriptType {
+		out.scriptType = c.scriptType
+	}
+	if out.element.eq(c0.element) && len(out.element.names) == len(c0.element.names) {
+		out.element = c.element
+	}
+	return out
 }
 
 // computeOutCtx takes a template and its start context and computes the output
